@@ -15,6 +15,69 @@ package datatransfer
 //@ func datatransfer.FromOptions
 //@   effectfree -- boundary: option closures are applied to a fresh config; only non-nilness of the result is assumed
 
+// ---------------------------------------------------------------------------------------------
+// locks (C20): one strict order on the module's mutex classes; every function under contract declares the classes
+// it may acquire (`acquires`), checked against its body and against the locks held at each of its call sites
+//@ lockorder [module-lock-order] {C20}: channelsubscriptions.ChannelSubscriptions.subscriptionsLk < graphsync.dtChannel.lk <
+//@     transportoptions.TransportOptions.optionsLk < graphsync.Transport.dtChannelsLk < graphsync.dtChannel.optionsLk ;
+//@     graphsync.Transport.dtChannelsLk < graphsync.requestIDToChannelIDMap.lk ;
+//@     graphsync.dtChannel.lk < registry.Registry.registryLk ; graphsync.dtChannel.lk < tracing.SpansIndex.spansLk ;
+//@     graphsync.dtChannel.lk < channels.blockIndexCache.lk ; graphsync.dtChannel.lk < channels.progressCache.lk
+
+//@ type TransportOption
+//@   nonnil . -- input validity: the options handed in by the application or returned by a configurer are non-nil functions
+//@ extern func dyn.TransportOption
+//@   acquires {C20} graphsync.Transport.dtChannelsLk, graphsync.dtChannel.optionsLk -- what this module's options (graphsync.UseStore, graphsync.MaxLinks) take
+
+//@ extern func dyn.CancelFunc
+//@   acquires {C20} nothing -- context.CancelFunc (standard library)
+//@ extern func dyn.Unsubscribe
+//@   acquires {C20} nothing -- the unsubscribe function of the pubsub dependency (its own lock is outside this module)
+//@ extern func dyn.Subscriber
+//@   acquires {C20} graphsync.Transport.dtChannelsLk, graphsync.dtChannel.lk, tracing.SpansIndex.spansLk
+
+
+// lock effects of the module's own interfaces (C20): what any implementation in this module may acquire; each implementation is
+// checked against the entry of the method it implements (lock[refines:...]), each caller against the locks it holds (lock[order:...])
+//@ extern func (datatransfer.EventsHandler).OnChannelOpened
+//@   acquires {C20} nothing
+//@ extern func (datatransfer.EventsHandler).OnResponseReceived
+//@   acquires {C20} nothing
+//@ extern func (datatransfer.EventsHandler).OnDataReceived
+//@   acquires {C20} channels.blockIndexCache.lk, channels.progressCache.lk, tracing.SpansIndex.spansLk
+//@ extern func (datatransfer.EventsHandler).OnDataQueued
+//@   acquires {C20} channels.blockIndexCache.lk, channels.progressCache.lk, tracing.SpansIndex.spansLk
+//@ extern func (datatransfer.EventsHandler).OnDataSent
+//@   acquires {C20} channels.blockIndexCache.lk, channels.progressCache.lk, tracing.SpansIndex.spansLk
+//@ extern func (datatransfer.EventsHandler).OnTransferInitiated
+//@   acquires {C20} nothing
+//@ extern func (datatransfer.EventsHandler).OnRequestReceived
+//@   acquires {C20} channels.progressCache.lk, graphsync.Transport.dtChannelsLk, graphsync.dtChannel.lk, graphsync.dtChannel.optionsLk, graphsync.requestIDToChannelIDMap.lk, registry.Registry.registryLk, transportoptions.TransportOptions.optionsLk
+//@ extern func (datatransfer.EventsHandler).OnChannelCompleted
+//@   acquires {C20} tracing.SpansIndex.spansLk
+//@ extern func (datatransfer.EventsHandler).OnRequestCancelled
+//@   acquires {C20} nothing
+//@ extern func (datatransfer.EventsHandler).OnRequestDisconnected
+//@   acquires {C20} nothing
+//@ extern func (datatransfer.EventsHandler).OnSendDataError
+//@   acquires {C20} nothing
+//@ extern func (datatransfer.EventsHandler).OnReceiveDataError
+//@   acquires {C20} nothing
+//@ extern func (datatransfer.EventsHandler).OnContextAugment
+//@   acquires {C20} nothing
+//@ extern func (datatransfer.Transport).OpenChannel
+//@   acquires {C20} graphsync.Transport.dtChannelsLk, graphsync.dtChannel.lk
+//@ extern func (datatransfer.Transport).CloseChannel
+//@   acquires {C20} graphsync.Transport.dtChannelsLk, graphsync.dtChannel.lk
+//@ extern func (datatransfer.Transport).CleanupChannel
+//@   acquires {C20} graphsync.Transport.dtChannelsLk, graphsync.dtChannel.lk, graphsync.dtChannel.optionsLk, graphsync.requestIDToChannelIDMap.lk
+//@ extern func (datatransfer.Transport).Shutdown
+//@   acquires {C20} graphsync.Transport.dtChannelsLk
+//@ extern func (datatransfer.PauseableTransport).PauseChannel
+//@   acquires {C20} graphsync.Transport.dtChannelsLk, graphsync.dtChannel.lk
+//@ extern func (datatransfer.PauseableTransport).ResumeChannel
+//@   acquires {C20} graphsync.Transport.dtChannelsLk, graphsync.dtChannel.lk
+
 //@ interface Message
 //@   pure IsRequest, IsRestart, IsNew, IsUpdate, IsPaused, IsCancel, TransferID
 //@ interface Request
